@@ -605,7 +605,8 @@ func checkMain(prop, tier string) int {
 			addSig(v.Sig, v.Detail, o.Idx, nil)
 		}
 	}
-	crashOwn := prop == "C25" || prop == "C20" || prop == "C18"
+	// (a command line tool that dies on a configuration does not "use the mapping" / "refuse to start")
+	crashOwn := prop == "C25" || prop == "C20" || prop == "C18" || prop == "C30" || prop == "C31"
 	incidental := map[string]int{}
 	for i := range crashes {
 		cr := &crashes[i]
